@@ -240,13 +240,25 @@ def node_model(eng, st, pos, kw):
             if not z3.is_false(z3.simplify(dup)) and eng.feasible(s_dup):
                 outs.append((s_dup, RaiseV("TypeError", None, "node(): keyword given explicitly and in **mapping")))
             s0 = s0.assume(z3.Not(dup)).assume(z3.Not(special))
-            ek = z3.Empty(z3.SeqSort(z3.StringSort()))
-            keys = ek
             vals = sym.vals
             for k, v in pairs:
-                keys = z3.Unit(k) if _is_empty(keys) else z3.Concat(keys, z3.Unit(k))
                 vals = z3.Store(vals, k, v)
-            keys = sym.keys if _is_empty(keys) else z3.Concat(keys, sym.keys)
+            if not pairs:
+                keys = sym.keys
+            else:
+                # explicit keywords first, then the mapping's keys: a fresh sequence characterised pointwise
+                # (length, every position, membership) so that quantified clauses about it instantiate by matching
+                ne = len(pairs)
+                keys = z3.FreshConst(sym.keys.sort(), "akeys")
+                s0 = s0.assume(z3.Length(keys) == ne + z3.Length(sym.keys))
+                for i, (k, _) in enumerate(pairs):
+                    s0 = s0.assume(keys[i] == k)
+                jq = z3.FreshConst(z3.IntSort(), "jq")
+                s0 = s0.assume(z3.ForAll([jq], z3.Implies(z3.And(jq >= 0, jq < z3.Length(sym.keys)),
+                                                          keys[ne + jq] == sym.keys[jq])))
+                xq = z3.FreshConst(z3.StringSort(), "kq")
+                s0 = s0.assume(z3.ForAll([xq], z3.Contains(keys, z3.Unit(xq))
+                                         == z3.Or(z3.Contains(sym.keys, z3.Unit(xq)), *[xq == k for k, _ in pairs])))
             attrs = ATTRS.sort().constructor(0)(keys, vals)
         else:
             attrs = mk_attrs(pairs)
